@@ -23,6 +23,9 @@ def apply_mutation(src, m):
         occ = ed.get('occurrence', 0)
         if occ == 'all':
             s = s.replace(old, new)
+        elif occ == 'last':
+            idx = s.rfind(old)
+            s = s[:idx] + new + s[idx + len(old):]
         else:
             idx = -1
             for _ in range(occ + 1):
